@@ -954,6 +954,16 @@ func (s *sim) totpDeliver(a *acct, m message) {
 	})
 }
 
+// prevCode: the code of the step before n (or after, at step 0), via the library called alone.
+func prevCode(secret string, n uint64, digits, algo int) string {
+	m := n + 1
+	if n > 0 {
+		m = n - 1
+	}
+	c, _ := refHOTP(secret, m, digits, algo)
+	return c
+}
+
 var boundaryOffsNs = []int64{-2e9, -1e9, -1, 0, 1, 1e9, 2e9}
 
 // totpDisplay: C02 – what the token shows at an instant.
@@ -1042,13 +1052,32 @@ func (s *sim) totpDisplay(a *acct, e *Event) {
 		if digits == 6 && algo == 0 {
 			vps = append(vps, nil)
 		}
-		for i, vp := range vps {
-			var ok bool
-			var err error
-			r := guarded(func() { ok, err = otp.ValidateTOTP(a.tokSecret, want, goTime(tc, a.Zone, a.Mono), vp) })
-			if r.panicked || r.tripped || !ok {
-				s.fail("defaults-consistent", "ValidateTOTP", fmt.Sprintf("default-period-mismatch:%d", i), fmt.Sprintf("code %q generated at t=%d with period=%d nil=%v is not validated at the same instant with param variant %d (%+v): ok=%v err=%v panic=%v", want, tc.Sec, a.Period, a.NilParam, i, vp, ok, err, r.pval))
-				return
+		// Judged is only whether the spellings of "default" agree with one another
+		// (period 0 / nil / explicit 30, at a step boundary and inside a step, for
+		// the code of this step and of the neighbouring one): whether validation
+		// accepts the right codes at all is C04's business, not C02's.
+		for _, code := range []string{want, prevCode(a.tokSecret, n, digits, algo)} {
+			first := true
+			var ref bool
+			for i, vp := range vps {
+				var ok bool
+				var err error
+				r := guarded(func() { ok, err = otp.ValidateTOTP(a.tokSecret, code, goTime(tc, a.Zone, a.Mono), vp) })
+				if r.tripped {
+					continue
+				}
+				if r.panicked {
+					s.fail("defaults-consistent", "ValidateTOTP", fmt.Sprintf("default-period-panic:%d", i), fmt.Sprintf("ValidateTOTP panicked with param variant %d (%+v): %v", i, vp, r.pval))
+					return
+				}
+				if first {
+					ref, first = ok, false
+					continue
+				}
+				if ok != ref {
+					s.fail("defaults-consistent", "ValidateTOTP", fmt.Sprintf("default-period-mismatch:%d", i), fmt.Sprintf("at t=%d code %q: ValidateTOTP says %v with param variant 0 (%+v) but %v with variant %d (%+v) (err %v): the spellings of the default period do not mean the same", tc.Sec, code, ref, vps[0], ok, i, vp, err))
+					return
+				}
 			}
 		}
 		verifh.Count("probe.defaults-crosscheck", 1)
